@@ -13,7 +13,7 @@ RULE = ('closed-loop histories in two or more operator incarnations: objects are
         'both ways) while the environment breaks watch streams, compacts the history (410 => re-listing) and edits objects before, '
         'during and after the resume cycle. Oracle per (incarnation, object, resume handler): at most one successful completion; '
         'exactly one at quiescence for objects that were listed at the start as handled-before, without unfinished progress and not '
-        'being deleted (and survived); none for objects first seen through the stream, nor for objects listed as being deleted unless '
+        'being deleted (and survived); none for objects first seen through the stream (first seen = in a listing, the initial one or a re-listing, or in a stream event), nor for objects listed as being deleted unless '
         'deleted=True. Non-trivial: a re-listing after the resume cycle finished, or an edit during it; distinct by scenario JSON')
 ASSUMPTIONS = c02.ASSUMPTIONS[:4] + [
     'bounded liveness: the resume cycle must be over within sum(scripted delays) + 60 s after the last action',
@@ -53,7 +53,7 @@ def scenarios(draw):
     actions = phase1 + [restart] + phase2
     if draw(st.booleans()):
         actions += [{'a': 'downtime', 'how': 'stop', 'down': 1.0, 'dt': 1.0, 'edits': []}] + draw(st.lists(st.one_of(env, stream), max_size=4))
-    return {'seed': draw(st.integers(0, 9999)), 'spec': spec, 'cluster': {'status_sub': draw(st.booleans())}, 'actions': actions}
+    return {'seed': draw(st.integers(0, 9999)), 'spec': spec, 'cluster': {'status_sub': draw(st.booleans()), 'rsp_latency': draw(st.sampled_from([None, None, 0.3, 1.0]))}, 'actions': actions}
 
 
 def check(run, res):
@@ -75,8 +75,20 @@ def check(run, res):
                     and r['outcome'] == 200 and r['t_done'] is not None]
         if not listings:
             continue
-        first = listings[0]
-        listed0 = {uid: int(rv) for uid, rv in first['listed']}
+        # first sight of every object in this process: through a listing (the initial one, or a re-listing after 410 Gone that
+        # brings an object nobody had seen yet) or through a stream event
+        sights = {}
+        for r in listings:
+            for uid, rv in r['listed']:
+                sights.setdefault(uid, []).append((r['t_done'], r['seq_applied'], int(rv), 'list'))
+        for w in sim.cluster.all_watches:
+            if w.rkey == KEX and w.session.client_id == name:
+                for (t, typ, rv, uid, tick) in w.delivered:
+                    if rv is not None and typ in ('ADDED', 'MODIFIED', 'DELETED'):
+                        sights.setdefault(uid, []).append((t, tick, int(rv), 'stream'))
+        listed0 = {uid: min(lst)[2] for uid, lst in sights.items() if min(lst)[3] == 'list'}
+        if any(uid in listed0 and uid not in {u for u, _ in listings[0]['listed']} for uid in listed0):
+            res.label('first-sight-in-a-relisting')
         alive_till_end = inc['t_end'] is None
         for uid, vers in versions.items():
             calls = [c for c in sim.trace if c.get('k') == 'call' and c['inc'] == name and c['uid'] == uid and c['hid'] in hs and hs[c['hid']]['kind'] == 'resume']
@@ -88,7 +100,7 @@ def check(run, res):
                     res.fail('C14/resumed-twice', f'{name}: resume handler {h["id"]} ran to completion {len(oks)} times for {vers[0]["name"]} ({uid}) at t={[(c["t0"], c["outcome"]) for c in oks]}')
                 if uid not in listed0:
                     if mine:
-                        res.fail('C14/resumed-object-from-stream', f'{name}: resume handler {h["id"]} ran for {vers[0]["name"]} ({uid}) which was not in the initial listing (first seen through the stream)')
+                        res.fail('C14/resumed-object-from-stream', f'{name}: resume handler {h["id"]} ran for {vers[0]["name"]} ({uid}) which this process first saw through the stream, not in a listing')
                     continue
                 body0 = next((v['body'] for v in vers if v['rv'] == listed0[uid]), None)
                 if body0 is None:
